@@ -514,10 +514,7 @@ func (e *Engine) vcall(fn *ssa.Function, s *St, in *ssa.Call, ip int, short stri
 				e.replayFails[id]++
 				e.rlog(fmt.Sprintf("  assertion %s FAILS on the real VM", id))
 			}
-			if !c.b {
-				return nil, nil, false // like the symbolic side: continue only where the assertion holds
-			}
-			return set(UnitV{})
+			return set(UnitV{}) // like the symbolic side: an assertion does not constrain what follows
 		}
 		ob := e.obligation(id, kind)
 		t0 := nowMs()
@@ -539,10 +536,8 @@ func (e *Engine) vcall(fn *ssa.Function, s *St, in *ssa.Call, ip int, short stri
 			ob.Unknown++
 			ob.Notes = append(ob.Notes, r)
 		}
-		if !e.feasible(s.State, c) {
-			return nil, nil, false
-		}
-		s.State.pc = And(s.pc, c)
+		// an assertion does not constrain what follows (one defect must not mask the obligations of another
+		// property decided by the same harness); harness code that indexes a result guards itself
 		return set(UnitV{})
 	case "vInvoke", "vRead":
 		e.worldUsed = true
